@@ -6,7 +6,7 @@
 EXTENDS MC_Select, Json
 Out(s) == [err |-> s.err, nodes |-> s.nodes, geom |-> s.geom, rw |-> s.rw, dtags |-> s.dtags, start |-> s.startOf,
            was |-> (IF \A i \in 1..Len(s.added) : s.added[i] = <<>> THEN s.was ELSE s.added), handed |-> s.handed]
-ExportInv == Done => PrintT(<<"CASE", ToJson([c |-> case, x |-> Out(st), n |-> pc - 1])>>)
+ExportInv == Done => PrintT(<<"CASE", ToJson([c |-> case, x |-> Out(st), a |-> [i \in 1..(pc - 1) |-> steps[i].a]])>>)
 MolSpecQ == FMol(4) /\ [][Next]_vars
 MolSpecF == FMol(5) /\ [][Next]_vars
 RestASpec == RestA /\ [][Next]_vars
